@@ -199,6 +199,18 @@ Proof.
     destruct (normalize B (s1 * s2) (e1 + e2)); reflexivity.
 Qed.
 
+
+(** the operator / (repr_div directly) equals Context::div when the dividend is not longer than
+    precision + digits of the divisor (otherwise the operator trips repr_div's debug assertion) *)
+Theorem float_div_ctx_agrees : forall p m s1 e1 s2 e2,
+  dlen B s1 <= p + dlen B s2 ->
+  fdiv_ctx B p m s1 e1 s2 e2 = fdiv_op B p m s1 e1 s2 e2.
+Proof.
+  intros p m s1 e1 s2 e2 H. unfold fdiv_ctx, fdiv_op.
+  destruct (Z.gtb_spec (dlen B s1) (dlen B s2 + p)); [lia|]. rewrite andb_false_r.
+  destruct (Z.gtb_spec (dlen B s1) (p + dlen B s2)); [lia|]. reflexivity.
+Qed.
+
 End Forms.
 
 (** the estimate used for execution satisfies the hypothesis *)
